@@ -82,49 +82,97 @@ func observe(ms schema.ModelSet, d []dvm.DNode) (o dataObs) {
 	return
 }
 
-// judgeErrs compares reported errors with the spec's violation sets; "" = agreed.
+// judgeErrs compares the reported errors with the spec's violation sets, independent of message
+// wording (the same rule as JudgeErrs in DataValidateTrace.tla): errors and violations are counted
+// per key (error type class + path); a refined error (known wording) must find a violation of its
+// class, unrefined errors stand for any violation of their key.  "" = agreed.
 func judgeErrs(viol, mustv, errs []dvm.Viol) (string, *dvm.Viol) {
-	want, must, got := map[string]dvm.Viol{}, map[string]dvm.Viol{}, map[string]dvm.Viol{}
-	for _, x := range viol {
-		want[violKey(x, true)] = x
-	}
-	for _, x := range mustv {
-		must[violKey(x, true)] = x
-	}
-	for _, x := range errs {
-		got[violKey(x, true)] = x
-	}
-	if (len(got) == 0) != (len(want) == 0) {
-		for _, x := range sortedViols(want, got) {
+	if (len(errs) == 0) != (len(viol) == 0) {
+		for _, x := range append(append([]dvm.Viol{}, viol...), errs...) {
 			x := x
 			return "verdict", &x
 		}
 	}
-	for _, k := range sortedKeys(got) {
-		if _, ok := want[k]; !ok {
-			x := got[k]
+	cls := func(v dvm.Viol) string {
+		if v.K == "missing" {
+			return "missing " + v.N
+		}
+		return v.K
+	}
+	type cnt struct{ all, must, obs, open int }
+	keys := map[string]*cnt{}
+	classes := map[string]map[string]*cnt{} // key -> class -> counts (obs = refined errors)
+	at := func(k string) *cnt {
+		if keys[k] == nil {
+			keys[k] = &cnt{}
+			classes[k] = map[string]*cnt{}
+		}
+		return keys[k]
+	}
+	atc := func(k, c string) *cnt {
+		at(k)
+		if classes[k][c] == nil {
+			classes[k][c] = &cnt{}
+		}
+		return classes[k][c]
+	}
+	rep := map[string]dvm.Viol{}
+	for _, v := range viol {
+		at(v.Key()).all++
+		atc(v.Key(), cls(v)).all++
+	}
+	for _, v := range mustv {
+		at(v.Key()).must++
+		atc(v.Key(), cls(v)).must++
+		rep[v.Key()] = v
+	}
+	for _, e := range errs {
+		at(e.Key()).obs++
+		if e.K == "" {
+			at(e.Key()).open++
+		} else {
+			atc(e.Key(), cls(e)).obs++
+		}
+		if _, ok := rep[e.Key()]; !ok {
+			rep[e.Key()] = e
+		}
+	}
+	ks := []string{}
+	for k := range keys {
+		ks = append(ks, k)
+	}
+	sort.Strings(ks)
+	for _, k := range ks {
+		c := keys[k]
+		spur := c.obs > c.all
+		for _, cc := range classes[k] {
+			if cc.obs > cc.all {
+				spur = true
+			}
+		}
+		if spur {
+			x := rep[k]
+			for _, e := range errs {
+				if e.Key() == k {
+					x = e
+				}
+			}
 			return "spurious", &x
 		}
 	}
-	for _, k := range sortedKeys(must) {
-		if _, ok := got[k]; !ok {
-			x := must[k]
+	for _, k := range ks {
+		left := 0
+		for _, cc := range classes[k] {
+			if cc.must > cc.obs {
+				left += cc.must - cc.obs
+			}
+		}
+		if left > keys[k].open {
+			x := rep[k]
 			return "unreported", &x
 		}
 	}
 	return "", nil
-}
-
-func violKey(v dvm.Viol, eraseChoice bool) string {
-	n := v.N
-	if v.K == "choice" && eraseChoice {
-		n = ""
-	}
-	p := v.Path
-	if v.K == "count" && v.Sp != nil {
-		p = v.Sp // expected violation: a cardinality error names the schema path
-	}
-	return v.K + "|" + n + "|" + strings.Join(p, "/")
 }
 
 func replayData(args []string) {
@@ -189,25 +237,6 @@ func replayData(args []string) {
 	}
 	w.close()
 	fmt.Printf("{\"evaluations\":%d,\"mismatches\":%d,\"with_violations\":%d,\"with_defaults_added\":%d}\n", n, bad, withViol, withDef)
-}
-
-func sortedKeys(m map[string]dvm.Viol) []string {
-	ks := []string{}
-	for k := range m {
-		ks = append(ks, k)
-	}
-	sort.Strings(ks)
-	return ks
-}
-
-func sortedViols(ms ...map[string]dvm.Viol) []dvm.Viol {
-	out := []dvm.Viol{}
-	for _, m := range ms {
-		for _, k := range sortedKeys(m) {
-			out = append(out, m[k])
-		}
-	}
-	return out
 }
 
 type randCase struct {
